@@ -32,7 +32,7 @@ LEVEL_TEXT = ('For every stream of the family and every inspector (and the '
               'reachable state - are explored on the real objects and must end '
               'in one and the same verdict; retained region bytes are compared '
               'with the stream in every state. For the capture engine every '
-              'stream up to length 6/7 over a 5/6-letter alphabet is explored '
+              'stream up to length 6/8 over a 5/6-letter alphabet is explored '
               'under every one of its chunkings.')
 LEVEL_NOTE = ('Bounded: streams are the generated family (not all byte '
               'strings); for streams above ~1.5 KiB chunkings are all subsets '
@@ -399,7 +399,7 @@ def _mini_job(job):
 
 def run_mini(ctx, rep):
     alphabet = [0, 1, 2, 3, 5] if not ctx.thorough else [0, 1, 2, 3, 4, 6]
-    maxlen = 6 if not ctx.thorough else 7
+    maxlen = 6 if not ctx.thorough else 8
     total = sum(len(alphabet) ** n for n in range(maxlen + 1))
     nparts = 64
     step = (total + nparts - 1) // nparts
